@@ -330,3 +330,30 @@ PROPS["C19"] = dict(
     trusted=COMMON_TRUST + ["libc printf/scanf of doubles: values compared to 4e-15 relative (16 printed digits)"],
     assumptions=["number printing/parsing is libc's; the index/shape logic is what is modelled"],
 )
+
+
+def c20_configs(tier, seed):
+    cfgs = []
+    for n in nps(tier, [1, 2, 3, 4, 6], [1, 2, 3, 4, 5, 6, 7, 8, 12, 16]):
+        cfgs.append({"tag": f"h_c20-repart-np{n}", "harness": "h_c20", "np": n, "args": ["repart"], "asan": n in (2, 3)})
+        cfgs.append({"tag": f"h_c20-scale-np{n}", "harness": "h_c20", "np": n, "args": ["scale"]})
+    return cfgs
+
+
+PROPS["C20"] = dict(
+    module="RaptorModel.Props.C20",
+    harnesses=["h_c20"],
+    configs=c20_configs,
+    rule=("repartition: random square matrices (with and without a full diagonal, densities 0..4 entries per row) on default / random / "
+          "empty-rank source layouts, target maps round-robin, random, everything to one rank, half the ranks empty, identity, reverse; "
+          "natural, reversed-preference and randomly delayed message schedules (PMPI layer); everything the call returns is dumped: "
+          "new_local_rows, both blocks, the three maps, the new package, and the product with a permuted random vector. "
+          "Scaling: matrices with a non-zero diagonal (power-of-4, random positive, random signed), random off-diagonals and right-hand "
+          "sides, rows presented diagonal-first or column-sorted; diagonally_scale + diagonally_unscale, and row_scale. "
+          "Non-trivial = more than one unknown and at least one stored entry."),
+    trusted=COMMON_TRUST + ["MPI_Pack/MPI_Unpack round-trip (the message content is modelled as a list of rows)",
+                            "the forward exchange of the target map for halo columns is C03's property (the model reads the target of a column directly)",
+                            "scaling is compared at double precision with relative tolerance 1e-10; theorems are over an exact commutative ring / field"],
+    assumptions=["global row ids are distinct and every row belongs to exactly one rank (the partition invariant, C18)",
+                 "the diagonal is stored and non-zero for the scaling claims (the property's premise)"],
+)
